@@ -34,6 +34,9 @@ def run(ctx):
     for be in (("asm", "c64", "c32", "dxor", "generic") if ctx.thorough else ("asm", "c64", "c32", "generic")):
         configs.append((be, D, False, "clang", "-O3"))
         configs.append((be, D, False, "gcc", "-O3"))
+        configs.append((be, D, False, "gcc", "-Os"))       # size-optimising builds define __OPTIMIZE_SIZE__ (CMake's MinSizeRel, the Arduino default)
+        if ctx.thorough or be in ("asm", "c32"):
+            configs.append((be, D, False, "clang", "-Oz"))
         if ctx.thorough or be == "c32":
             configs.append((be, D, False, "gcc", "-O0"))
             configs.append((be, (3, 3, 3), False, "clang", "-O1"))
@@ -42,6 +45,11 @@ def run(ctx):
         for cc in ("gcc", "clang"):
             configs.append((be, D, False, cc, "-O2", ("-U__SIZEOF_SIZE_T__",)))
             configs.append((be, D, False, cc, "-O2", ("-DNDEBUG",)))      # assertion-free builds (RelWithDebInfo / MinSizeRel define it)
+    # the repository's own build system (CMake, Release): the flags it gives the C, C++ and assembly sources are part of the configuration -- default and two MAX_SHARES values on the x86-64 back end
+    for tr in ((D, (3, 2, 3), (2, 1, 2)) if not ctx.thorough else (D, (3, 2, 3), (2, 1, 2), (3, 3, 3), (2, 2, 2), (3, 1, 3))):
+        configs.append(("asm", tr, False, "gcc", "cmake"))
+    if ctx.thorough:
+        configs.append(("c32", (3, 2, 3), False, "gcc", "cmake"))
     results = {}
 
     def one(c):
@@ -50,7 +58,11 @@ def run(ctx):
         extra = tuple(c[5]) if len(c) > 5 else ()
         name = cfgname(be, tr, chk, cc, opt, extra)
         try:
-            lib = build.build_lib(be, tr, checker=chk, cc=cc, opt=opt, extra=list(extra))
+            if opt == "cmake":
+                from checks.c13 import release_lib
+                lib = release_lib(be, cc, None if tr == D else tr)
+            else:
+                lib = build.build_lib(be, tr, checker=chk, cc=cc, opt=opt, extra=list(extra))
             exe = build.build_prog("c09", SRC, lib, opt="-O2")
         except build.BuildError as e:
             ctx.fail("build-error:" + name, str(e)[-800:])
